@@ -217,8 +217,23 @@ class Trial:
             time.sleep(0.002)
         time.sleep(0.03)
         self.judge_until = stamp()
-        self.drained = apirig.drain(self.obs, 10)
-        self.api("stop")
+        if self.cfg.get("double_stop"):
+            # two threads call stop() at the same time while events are still queued / being dispatched: from the moment
+            # EITHER call has returned no removed handler may be invoked
+            for e in list(self.registry):
+                if e.is_alive():
+                    for i in range(6):
+                        e.script.put(__import__("watchdog.events", fromlist=["FileModifiedEvent"]).FileModifiedEvent(f"/w{int(e.watch.path[2:])}/z{i:05d}"))
+            time.sleep(0.004)
+            ts = [threading.Thread(target=lambda: self.api("stop"), name=f"wdv-stop{i}", daemon=True) for i in range(2)]
+            for t in ts:
+                t.start()
+            for t in ts:
+                t.join(15)
+            self.drained = False
+        else:
+            self.drained = apirig.drain(self.obs, 10)
+            self.api("stop")
         self.obs.join(10)
         hung = self.obs.is_alive() or any(t.is_alive() for t in threads)
         if self.instr is not None:
